@@ -42,7 +42,9 @@ pub enum TxnRef {
 #[derive(Clone, Debug)]
 pub enum Op {
     Declare { ctrl: usize },
-    Post { link: usize, txn: TxnRef, frames: usize, settled: bool, state_on_all: bool },
+    /// `abort_first`: before the post the controller starts a delivery on the same link under the same state (one
+    /// frame with `more`) and aborts it: nothing of it may ever be seen, at the link or by the next delivery
+    Post { link: usize, txn: TxnRef, frames: usize, settled: bool, state_on_all: bool, abort_first: bool },
     Discharge { ctrl: usize, txn: TxnRef, fail: Option<bool> },
     CtrlGone { ctrl: usize, closed: bool },
     SessionEnd,
@@ -77,7 +79,7 @@ impl Case {
     pub fn to_json(&self) -> J {
         json!({"ctrl_links": self.ctrl_links, "data_links": self.data_links, "interleave": self.interleave, "ops": self.ops.iter().map(|o| match o {
             Op::Declare { ctrl } => json!({"declare": ctrl}),
-            Op::Post { link, txn, frames, settled, state_on_all } => json!({"post": link, "txn": ref_json(txn), "frames": frames, "settled": settled, "state_on_all": state_on_all}),
+            Op::Post { link, txn, frames, settled, state_on_all, abort_first } => json!({"post": link, "txn": ref_json(txn), "frames": frames, "settled": settled, "state_on_all": state_on_all, "abort_first": abort_first}),
             Op::Discharge { ctrl, txn, fail } => json!({"discharge": ctrl, "txn": ref_json(txn), "fail": fail}),
             Op::CtrlGone { ctrl, closed } => json!({"ctrl_gone": ctrl, "closed": closed}),
             Op::SessionEnd => json!({"session_end": true}),
@@ -88,7 +90,7 @@ impl Case {
             if let Some(c) = o.get("declare") {
                 Some(Op::Declare { ctrl: c.as_u64()? as usize })
             } else if let Some(l) = o.get("post") {
-                Some(Op::Post { link: l.as_u64()? as usize, txn: ref_from(o.get("txn")?), frames: o.get("frames")?.as_u64()? as usize, settled: o.get("settled")?.as_bool()?, state_on_all: o.get("state_on_all").and_then(|x| x.as_bool()).unwrap_or(true) })
+                Some(Op::Post { link: l.as_u64()? as usize, txn: ref_from(o.get("txn")?), frames: o.get("frames")?.as_u64()? as usize, settled: o.get("settled")?.as_bool()?, state_on_all: o.get("state_on_all").and_then(|x| x.as_bool()).unwrap_or(true), abort_first: o.get("abort_first").and_then(|x| x.as_bool()).unwrap_or(false) })
             } else if let Some(c) = o.get("discharge") {
                 Some(Op::Discharge { ctrl: c.as_u64()? as usize, txn: ref_from(o.get("txn")?), fail: o.get("fail").and_then(|x| x.as_bool()) })
             } else if let Some(c) = o.get("ctrl_gone") {
@@ -142,7 +144,7 @@ pub fn gen_case(rng: &mut Rng, first_frame_state_only: bool) -> Case {
             4..=11 => {
                 let txn = if rng.chance(1, 3) { TxnRef::None } else { pick_txn(rng, &usable) };
                 let frames = *rng.pick(&[1usize, 1, 1, 2, 3]);
-                Op::Post { link: rng.below(data_links as u64) as usize, txn, frames, settled: rng.chance(1, 3), state_on_all: !(first_frame_state_only && rng.chance(1, 2)) }
+                Op::Post { link: rng.below(data_links as u64) as usize, txn, frames, settled: rng.chance(1, 3), state_on_all: !(first_frame_state_only && rng.chance(1, 2)), abort_first: rng.chance(1, 6) }
             }
             12..=16 => Op::Discharge { ctrl: rng.below(ctrl_links as u64) as usize, txn: pick_txn(rng, &usable), fail: *rng.pick(&[Some(false), Some(false), None, Some(true), Some(true)]) },
             17 | 18 if rng.chance(2, 3) => {
@@ -154,7 +156,7 @@ pub fn gen_case(rng: &mut Rng, first_frame_state_only: bool) -> Case {
                 Op::CtrlGone { ctrl, closed }
             }
             _ if rng.chance(1, 3) => Op::SessionEnd,
-            _ => Op::Post { link: rng.below(data_links as u64) as usize, txn: TxnRef::None, frames: 1, settled: false, state_on_all: true },
+            _ => Op::Post { link: rng.below(data_links as u64) as usize, txn: TxnRef::None, frames: 1, settled: false, state_on_all: true, abort_first: false },
         };
         ops.push(op);
     }
@@ -194,6 +196,21 @@ struct Script {
 }
 
 impl Script {
+    /// a delivery that is begun (one frame with `more`, carrying `state`) and aborted by its second frame
+    async fn aborted_attempt(&mut self, handle: u32, state: Option<DeliveryState>) -> Result<(), PeerError> {
+        let id = self.next_out;
+        self.tag += 1;
+        let mut t = transfer(handle, Some(id), Some(self.tag.to_be_bytes().to_vec()), Some(false), true);
+        t.state = state;
+        self.peer.send(0, Performative::Transfer(t), &[0x00, 0x53, 0x77, 0xa0, 0x20, 1, 2, 3, 4, 5]).await?;
+        self.next_out = self.next_out.wrapping_add(1);
+        let mut a = transfer(handle, None, None, None, false);
+        a.aborted = true;
+        self.peer.send(0, Performative::Transfer(a), &[]).await?;
+        self.next_out = self.next_out.wrapping_add(1);
+        Ok(())
+    }
+
     async fn transfer_msg(&mut self, handle: u32, body: Vec<u8>, frames: usize, settled: bool, state: Option<DeliveryState>, state_on_all: bool) -> Result<u32, PeerError> {
         let n = frames.max(1).min(body.len().max(1));
         let chunk = body.len().div_ceil(n).max(1);
@@ -429,7 +446,7 @@ pub fn run_case(case: &Case) -> Result<Observed, String> {
             }
             obs.issued += 1;
             if case.interleave.contains(&op_index) {
-                if let (Op::Post { link: la, txn: ta, frames, settled: sa, state_on_all: aa }, Some(Op::Post { link: lb, txn: tb, settled: sb, state_on_all: ab, .. })) = (op, case.ops.get(op_index + 1)) {
+                if let (Op::Post { link: la, txn: ta, frames, settled: sa, state_on_all: aa, .. }, Some(Op::Post { link: lb, txn: tb, settled: sb, state_on_all: ab, .. })) = (op, case.ops.get(op_index + 1)) {
                     let ha = sc.data_handles[*la % sc.data_handles.len()];
                     let hb = sc.data_handles[*lb % sc.data_handles.len()];
                     let state_of = |txn: &TxnRef, ids: &Vec<Vec<u8>>| -> Option<DeliveryState> {
@@ -503,7 +520,7 @@ pub fn run_case(case: &Case) -> Result<Observed, String> {
                         }
                     }
                 },
-                Op::Post { link, txn, frames, settled, state_on_all } => {
+                Op::Post { link, txn, frames, settled, state_on_all, abort_first } => {
                     label += 1;
                     let h = sc.data_handles[*link % sc.data_handles.len()];
                     let id_bytes: Option<Vec<u8>> = match txn {
@@ -514,6 +531,9 @@ pub fn run_case(case: &Case) -> Result<Observed, String> {
                     let state = id_bytes.map(|b| DeliveryState::TransactionalState(TransactionalState { txn_id: TransactionId::from(b), outcome: None }));
                     let body = msg_bytes(label_body(label, 40 * frames));
                     let is_txn = state.is_some();
+                    if *abort_first {
+                        sc.aborted_attempt(h, state.clone()).await.map_err(e)?;
+                    }
                     let id = sc.transfer_msg(h, body, *frames, *settled, state, *state_on_all).await.map_err(e)?;
                     if *settled {
                         // nothing comes back for a settled post unless it is refused
@@ -1408,11 +1428,11 @@ pub fn main(opts: &Opts) {
                         data_links: 2,
                         ops: vec![
                             Op::Declare { ctrl: 0 },
-                            Op::Post { link: 0, txn: TxnRef::Slot(0), frames, settled, state_on_all: all_a },
-                            Op::Post { link: 1, txn: TxnRef::Slot(0), frames, settled, state_on_all: all_b },
-                            Op::Post { link: 1, txn: TxnRef::None, frames: 1, settled: false, state_on_all: true },
+                            Op::Post { link: 0, txn: TxnRef::Slot(0), frames, settled, state_on_all: all_a, abort_first: false },
+                            Op::Post { link: 1, txn: TxnRef::Slot(0), frames, settled, state_on_all: all_b, abort_first: false },
+                            Op::Post { link: 1, txn: TxnRef::None, frames: 1, settled: false, state_on_all: true, abort_first: false },
                             Op::Discharge { ctrl: 0, txn: TxnRef::Slot(0), fail },
-                            Op::Post { link: 0, txn: TxnRef::None, frames: 2, settled: false, state_on_all: true },
+                            Op::Post { link: 0, txn: TxnRef::None, frames: 2, settled: false, state_on_all: true, abort_first: false },
                         ],
                         interleave: vec![1],
                     });
